@@ -194,10 +194,11 @@ def xf_str(xf):
     return "x " + H(xf[1] + xf[2])
 
 
-def gen_levels(rng, pos, oracle=False):
+def gen_levels(rng, pos, oracle=False, rotated=False):
     """random nesting: unit levels (1–4 faces, any type unless oracle) and rect-array levels whose
-    cell is chosen to contain the local point"""
-    nlev = rng.range(1, 4)
+    cell is chosen to contain the local point; `rotated`: ≥ 2 levels, every daughter placed with
+    a generic rotation (not its own inverse)"""
+    nlev = rng.range(2, 4) if rotated else rng.range(1, 4)
     out, desc = [], []
     p = list(pos)
     k = 0
@@ -205,7 +206,7 @@ def gen_levels(rng, pos, oracle=False):
         if k == 0:
             xf = ("n",)
         else:
-            c = rng.below(3)
+            c = 2 if rotated else rng.below(3)
             xf = ("n",) if c == 0 and not oracle else \
                 ("t", [rnd(rng, 3), rnd(rng, 3), rnd(rng, 3)]) if c <= 1 else \
                 ("x", rot_matrix(rng), [rnd(rng, 3), rnd(rng, 3), rnd(rng, 3)])
@@ -294,7 +295,19 @@ def gen_parent_near(rng, pos):
     return out, desc, near, far
 
 
-def gen_find(rng, oracle=False, parent_near=False):
+def gen_steps(rng):
+    """1–3 × (new unit direction, fraction of the step to move)"""
+    out = []
+    for _ in range(rng.range(1, 3)):
+        out += rnd_dir(rng) + [0.05 + 0.9 * rng.unit()]
+    return out
+
+
+def gen_find(rng, oracle=False, parent_near=False, rotated=False):
+    if rotated:
+        pos = [(rng.unit() * 2 - 1) * 4 for _ in range(3)]
+        lv, desc = gen_levels(rng, pos, True, rotated=True)
+        return "%s / %s" % (H(pos), " / ".join(lv)), desc, None
     if parent_near:
         pos = [(rng.unit() * 2 - 1) * 40 for _ in range(3)]
         lv, desc, near, far = gen_parent_near(rng, pos)
@@ -374,11 +387,14 @@ def geo_oracle(exe, rng, n_syn, n_real_pts, n_dir):
     min(safety(max), max) == min(safety(), max)."""
     lines, meta = [], []
     for j in range(n_syn):
-        pn = (j % 2 == 1)
-        body, desc, window = gen_find(rng, oracle=True, parent_near=pn)
+        pn = (j % 3 == 1)
+        sq = (j % 3 == 2)
+        body, desc, window = gen_find(rng, oracle=True, parent_near=pn, rotated=sq)
         mx = gen_max(rng, 5.0, window)
-        lines.append("gfind %s | %d %d %s" % (body, n_dir, rng.below(1 << 30), hx(mx)))
-        meta.append(("syn", ("parent-near:" if pn else "") + "/".join(desc), None, mx))
+        steps = (" " + H(gen_steps(rng))) if (sq or rng.chance(1, 4)) else ""
+        lines.append("gfind %s | %d %d %s%s" % (body, n_dir, rng.below(1 << 30), hx(mx), steps))
+        meta.append(("syn", ("parent-near:" if pn else "rotated-seq:" if sq else "") + "/".join(desc),
+                     None, mx))
     _, out = vlib.run_lines([exe], lines, timeout=3000)
     # the repository's own geometries, one process per file (loading the involute inputs crashes
     # inside OrangeParams — their tests are DISABLED_ upstream — and must not take the rest down)
@@ -408,7 +424,12 @@ def geo_oracle(exe, rng, n_syn, n_real_pts, n_dir):
                 p = [0.5 * (lo[i] + hi[i]) + (rng.unit() - 0.5) * 0.2 * (hi[i] - lo[i])
                      for i in range(3)]
             mx = gen_max(rng, scale)
-            if j > 0 and j % 2 == 0:
+            if j > 0 and j % 3 == 1:
+                # set_dir → find_next_step → move_internal sequence, then the safety queries on
+                # the moved state (per-level positions advanced along the stored local directions)
+                fl_lines.append("gseq %s %d %d %s %s" % (H(p), n_dir, rng.below(1 << 30), hx(mx),
+                                                         H(gen_steps(rng))))
+            elif j > 0 and j % 3 == 2:
                 # a point just inside the next wall along a random ray (walls of daughters are
                 # known to the parent level only)
                 eps = log_uniform(rng, 1e-4, 1.0)
@@ -426,7 +447,8 @@ def geo_oracle(exe, rng, n_syn, n_real_pts, n_dir):
         out += o
     fails, cases, nontrivial, by_geo = [], 0, 0, {}
     stats = {"max_below_safety": 0, "max_above_safety": 0, "near_wall_points": 0,
-             "deeper_levels": 0, "capped_by_max": 0}
+             "deeper_levels": 0, "capped_by_max": 0, "move_sequences": 0, "moves": 0,
+             "move_sequences_at_nested_level": 0, "move_sequences_fresh_init_failed": 0}
     cur = None
     for l, m, o in zip(lines, meta, out):
         if m[0] == "load":
@@ -434,7 +456,11 @@ def geo_oracle(exe, rng, n_syn, n_real_pts, n_dir):
             continue
         w = dict(kv.split("=", 1) for kv in o.split() if "=" in kv)
         gname = m[1] if m[0] == "real" else ("synthetic-parent-near" if m[1].startswith("parent-near")
-                                             else "synthetic")
+                                             else "synthetic-rotated-seq"
+                                             if m[1].startswith("rotated-seq") else "synthetic")
+        is_seq = "seqsafety" in w
+        if is_seq and "safety" not in w:
+            stats["move_sequences_fresh_init_failed"] += 1
         g = by_geo.setdefault(gname, [0, 0, 0])
         if "safety" not in w or "safetymax" not in w:
             g[2] += 1
@@ -455,7 +481,26 @@ def geo_oracle(exe, rng, n_syn, n_real_pts, n_dir):
                "impl_output": o, "safety": s, "safety_max_overload": sm, "max_step": mx,
                "min_distance": dist, "point": pt}
         what = None
-        if math.isnan(s) or s < 0 or math.isnan(sm) or sm < 0:
+        if is_seq:
+            ss, ssm, nmv = fl(w["seqsafety"]), fl(w["seqsafetymax"]), int(w["moves"])
+            stats["move_sequences"] += 1
+            stats["moves"] += nmv
+            if nmv > 0 and int(w.get("seqlevel", "0")) > 0:
+                stats["move_sequences_at_nested_level"] += 1
+            rep.update({"safety_after_moves": ss, "safety_max_after_moves": ssm, "moves": nmv,
+                        "safety_fresh_state_same_point": s})
+            teq = 1e-8 * (1.0 + (s if math.isfinite(s) else 0.0)) + 1e-8
+            if math.isnan(ss) or ss < 0 or math.isnan(ssm) or ssm < 0:
+                what = "find_safety-after-moves-negative-or-nan"
+            elif ss > dist + tol or min(ssm, mx) > dist + tol:
+                what = "find_safety-after-set_dir+move_internal-exceeds-boundary-distance"
+            elif not (ss == s or abs(ss - s) <= teq):
+                what = "find_safety-after-set_dir+move_internal-differs-from-fresh-state-at-same-point"
+            elif min(ssm, mx) != min(ss, mx):
+                what = "find_safety(max_step)-disagrees-with-find_safety()-below-max_step"
+        if what is not None:
+            pass
+        elif math.isnan(s) or s < 0 or math.isnan(sm) or sm < 0:
             what = "find_safety-negative-or-nan"
         elif s > dist + tol:
             what = "find_safety-exceeds-boundary-distance"
@@ -586,7 +631,8 @@ def run(ctx):
                                   "values": [fl(w) if len(w) == 16 else w for w in l.split()[1:]]})
     for what, geo, rep in gfails:
         gkey = geo if geo.endswith(".json") else \
-            "synthetic-parent-near" if geo.startswith("parent-near") else "synthetic"
+            "synthetic-parent-near" if geo.startswith("parent-near") else \
+            "synthetic-rotated-seq" if geo.startswith("rotated-seq") else "synthetic"
         rep["geometry"] = geo
         key = what if what == KEY_CENTER else "oracle:" + what + ":" + gkey
         if key in seen:
@@ -598,6 +644,10 @@ def run(ctx):
                             f"real OrangeTrackView on {geo}: {what} "
                             f"(find_safety() {rep['safety']!r}, find_safety({rep['max_step']!r}) "
                             f"{rep['safety_max_overload']!r}, boundary distance {rep['min_distance']!r})"), rep)
+    if g_stats.get("move_sequences_at_nested_level", 0) == 0:
+        ctx.violation("coverage:no-move-sequence-at-nested-level",
+                      "the geometry oracle ran no set_dir/move_internal sequence at a nested level",
+                      {"stats": g_stats}, found_input=False)
     if broken and not ctx.violations:
         ctx.violation("unproved", "; ".join(broken)[:700],
                       {"no_longer_checks": broken, "diverging_ops": diverged[:3]}, found_input=False)
